@@ -99,3 +99,69 @@ def handleTmd (cmd : String) (args : List SExp) : String :=
   | _, _ => "bad-args"
 
 end Pyctr
+
+namespace Pyctr
+open Romfs
+
+def lowerAsciiUnits (s : Str) : Str := s.map fun u => if 0x41 ≤ u ∧ u ≤ 0x5A then u + 0x20 else u
+
+def strHex (s : Str) : String := toHexW (encodeUtf16 s)
+
+partial def renderPNode : PNode → String
+  | .dir n cs => "(d " ++ strHex n ++ " (" ++ " ".intercalate (cs.map fun (_, v) => renderPNode v) ++ "))"
+  | .file n o s => "(f " ++ strHex n ++ " " ++ toString o ++ " " ++ toString s ++ ")"
+
+def strOfSExp (x : SExp) : Option Str := do
+  let b ← x.bytes?
+  decodeUnits b
+
+partial def treeOfSExp : SExp → Option Tree
+  | .list [.atom "d", n, .list ds, .list fs] => do
+    let n ← strOfSExp n
+    let ds ← ds.mapM treeOfSExp
+    let fs ← fs.mapM fun
+      | .list [fn, o, s] => do pure ((← strOfSExp fn), (← o.nat?), (← s.nat?))
+      | _ => none
+    pure (.dir n ds fs)
+  | _ => none
+
+def romfsEnv (ci : Bool) (file : Bytes) (start : Nat) (p : Parsed) : Env :=
+  -- recompute the tables exactly as `parse` does
+  let h := slice file (start + p.lv3Offset) 0x28
+  let dmo := u32 h 12; let dms := u32 h 16; let fmo := u32 h 28; let fms := u32 h 32
+  ⟨lowerAsciiUnits, ci, slice file (start + p.lv3Offset + dmo) dms, slice file (start + p.lv3Offset + fmo) fms,
+   dms / 0x18, fms / 0x20⟩
+
+def handleRomfs (cmd : String) (args : List SExp) : String :=
+  match cmd, args with
+  | "romfs-parse", [f, st, ci] =>
+    match f.bytes?, st.nat?, ci.nat? with
+    | some file, some start, some c =>
+      match Romfs.parse lowerAsciiUnits (c == 1) file start with
+      | .ok p => "ok " ++ toString p.lv3Offset ++ " " ++ toString p.dataOffset ++ " " ++ renderPNode p.root
+      | .error e => "e:" ++ e.name
+    | _, _, _ => "bad-args"
+  | "romfs-lookup", [f, st, ci, path] =>
+    match f.bytes?, st.nat?, ci.nat?, strOfSExp path with
+    | some file, some start, some c, some pth =>
+      match Romfs.parse lowerAsciiUnits (c == 1) file start with
+      | .error e => "e:" ++ e.name
+      | .ok p =>
+        match getRawInfo lowerAsciiUnits (c == 1) p.root pth with
+        | .error e => "e:" ++ e.name
+        | .ok (.dir n cs) => "dir " ++ strHex n ++ " " ++ " ".intercalate (cs.map fun (_, v) =>
+            match v with | .dir n' _ => strHex n' | .file n' _ _ => strHex n')
+        | .ok (.file n o s) => "file " ++ strHex n ++ " " ++ toString (start + p.dataOffset + o) ++ " " ++ toString s
+    | _, _, _, _ => "bad-args"
+  | "romfs-rep", [f, st, ci, t] =>
+    match f.bytes?, st.nat?, ci.nat?, treeOfSExp t with
+    | some file, some start, some c, some tree =>
+      match Romfs.parse lowerAsciiUnits (c == 1) file start with
+      | .error e => "e:" ++ e.name
+      | .ok p =>
+        let e := romfsEnv (c == 1) file start p
+        toString (repDir e (slice e.dm 0 0x18) tree && decide (tree.numDirs ≤ e.maxDirs) && decide (tree.numFiles ≤ e.maxFiles))
+    | _, _, _, _ => "bad-args"
+  | _, _ => "bad-args"
+
+end Pyctr
